@@ -119,6 +119,17 @@ def load_facts(repo=REPO, config="lib", crate="tiny_http", kind="main"):
 
 # ------------------------------------------------------------------------------------------------
 
+def take_over(ctx, sub_obs, select, new_rule, prefix=""):
+    """copy obligations decided on a private context into ctx under another rule id (shared premises between properties).
+    select(o) -> bool; returns the number taken"""
+    n = 0
+    for o in sub_obs:
+        if select(o):
+            n += 1
+            ctx.obs.append(Ob(new_rule + "|" + o.key.split("|", 1)[1], new_rule, prefix + o.text, o.ok, o.where, o.detail, o.nontrivial))
+    return n
+
+
 class Ob:
     __slots__ = ("key", "rule", "text", "ok", "where", "detail", "nontrivial", "known")
 
